@@ -205,15 +205,16 @@ package report
 //@   callsite callgrindAddress base: $arg0 == iter(prevInfo)
 //@   loop 1
 //@     step base_is_node: prevInfo == addr(n.Info)
+//@     mustcall callgrindName new_block_named: $arg1 == n.Info.Name when iter(prevInfo) == nil || n.Info.Objfile != iter(prevInfo).Objfile || n.Info.File != iter(prevInfo).File || n.Info.Name != iter(prevInfo).Name
 
 // ---- C05: newTrimmedGraph — the wiring of the trimming passes: the full graph is built first; a rebuilt graph is built
 // from exactly the kept set the selection returned; node cutoff, edge cutoff and node count reach the passes they belong
 // to; both cutoffs are non-negative; the final edge trim always runs and its count is what is reported ----
 //@ func Report.newTrimmedGraph arith bv nosafety floatabs=yes
 //@   callsite Report.newGraph rebuilt_from_kept: $arg1 == nodesKept
-//@   callsite Graph.DiscardLowFrequencyNodes cutoff: $arg1 == nodeCutoff && nodeCutoff > 0
+//@   callsite Graph.DiscardLowFrequencyNodes cutoff: $arg1 == nodeCutoff && nodeCutoff > 0 && nodeCutoff == callres("abs64#1", 0)
 //@   callsite Graph.DiscardLowFrequencyNodePtrs cutoff: $arg1 == nodeCutoff && nodeCutoff > 0
-//@   callsite Graph.TrimLowFrequencyEdges cutoff: $arg1 == edgeCutoff
+//@   callsite Graph.TrimLowFrequencyEdges cutoff: $arg1 == edgeCutoff && edgeCutoff == callres("abs64#2", 0)
 //@   callsite Graph.TrimLowFrequencyTags cutoff: $arg1 == nodeCutoff
 //@   callsite Graph.SelectTopNodes count: $arg1 == nodeCount && nodeCount > 0 && $arg2 == visualMode
 //@   callsite Graph.SelectTopNodePtrs count: $arg1 == nodeCount && nodeCount > 0 && $arg2 == visualMode
